@@ -31,11 +31,17 @@
 (*                      dereference srv.Session(hdr) without a nil check   *)
 (*  Dev_UnknownItem     SetMonitoringMode / DeleteMonitoredItems use       *)
 (*                      Items[id] before looking at `ok`                   *)
+(*  Dev_BlockedFanout   MonitoredItemService.ChangeNotification sends on   *)
+(*                      Subscription.NotifyChannel (capacity 100) while    *)
+(*                      holding Mu, in the dispatcher goroutine; a         *)
+(*                      subscriber that stops reading blocks               *)
+(*                      Subscription.run in SendResponse, the channel      *)
+(*                      fills, the dispatcher blocks: nobody is served     *)
 (***************************************************************************)
 EXTENDS Naturals, Sequences, FiniteSets, TLC, Json
 
 CONSTANTS MaxLen, Emit,
-          Dev_TickerInterval, Dev_NoSessionCheck, Dev_NilSession, Dev_UnknownItem,
+          Dev_TickerInterval, Dev_NoSessionCheck, Dev_NilSession, Dev_UnknownItem, Dev_BlockedFanout,
           SvcFilter    \* set of services to generate steps for ({} = all)
 
 VARIABLES alive,      \* server process is running and the dispatcher is not stuck
@@ -45,6 +51,8 @@ VARIABLES alive,      \* server process is running and the dispatcher is not stu
           hist        \* steps taken, with the expected outcome of each
 
 vars == <<alive, sess, sub, item, hist>>
+\* exhaustive configurations look at the server state and the number of steps only
+view == <<alive, sess, sub, item, Len(hist)>>
 Clients == {1, 2}
 Other(c) == 3 - c
 
@@ -59,11 +67,14 @@ Kinds ==
     \cup {[svc |-> "CreateMonitoredItems", arg |-> a] : a \in {"own", "foreign", "unknown", "ownEmpty", "ownUnknownNode", "ownHuge"}}
     \cup {[svc |-> s, arg |-> a] : s \in {"SetMonitoringMode", "DeleteMonitoredItems", "DeleteSubscriptions"},
                                    a \in {"own", "foreign", "unknown", "empty"}}
-    \cup {[svc |-> "Publish", arg |-> a] : a \in {"noacks", "unknownAck"}}
+    \cup {[svc |-> "Publish", arg |-> a] : a \in {"noacks", "unknownAck", "flood150"}}   \* flood: more than the session's queue holds
     \cup {[svc |-> s, arg |-> a] : s \in {"Read", "Write"}, a \in {"valid", "unknownNode", "unknownNs", "empty", "huge", "badAttr"}}
     \cup {[svc |-> "Browse", arg |-> a] : a \in {"valid", "unknownNode", "unknownNs", "empty", "huge", "noSubtypes33", "unknownRefType"}}
     \cup {[svc |-> s, arg |-> "default"] : s \in {"CloseSession", "ActivateSession", "CreateSession", "GetEndpoints", "FindServers"}}
     \cup {[svc |-> s, arg |-> "default"] : s \in Unsupported}
+    \* a scenario rather than a single request: the client subscribes to a node, queues publish
+    \* requests, stops reading its socket, and the node is then written (large values) by the other client
+    \cup {[svc |-> "SlowSubscriber", arg |-> "nonReading"]}
 
 SessClasses == {"own", "none", "unknown"}
 
@@ -81,7 +92,7 @@ ItemExists(c, a) == IF a = "own" THEN item[c] ELSE IF a = "foreign" THEN item[Ot
 Why(c, k, s) ==
     LET v == Valid(c, s) IN
     CASE k.svc = "CreateSubscription" ->
-            IF k.arg \in {"zero", "subms", "negative", "huge"} /\ Dev_TickerInterval THEN "Dev_TickerInterval"
+            IF k.arg \in {"zero", "subms", "negative", "huge"} /\ Dev_TickerInterval /\ (v \/ Dev_NoSessionCheck) THEN "Dev_TickerInterval"
             ELSE IF ~v /\ Dev_NoSessionCheck THEN "Dev_NoSessionCheck" ELSE ""
       [] k.svc = "CreateMonitoredItems" ->
             IF SubExists(c, k.arg) /\ ~v /\ Dev_NilSession THEN "Dev_NilSession" ELSE ""
@@ -91,6 +102,7 @@ Why(c, k, s) ==
             ELSE IF ItemExists(c, k.arg) /\ ~v /\ Dev_NilSession THEN "Dev_NilSession" ELSE ""
       [] k.svc = "DeleteSubscriptions" ->
             IF SubExists(c, k.arg) /\ ~v /\ Dev_NilSession THEN "Dev_NilSession" ELSE ""
+      [] k.svc = "SlowSubscriber" -> IF v /\ Dev_BlockedFanout THEN "Dev_BlockedFanout" ELSE ""
       [] OTHER -> ""
 
 Step(c, k, s) ==
@@ -98,7 +110,8 @@ Step(c, k, s) ==
     /\ LET w == Why(c, k, s)
            v == Valid(c, s)
        IN /\ hist' = Append(hist, [cl |-> c, svc |-> k.svc, arg |-> k.arg, sess |-> s,
-                                   exp |-> IF w = "" THEN "ok" ELSE "crash", why |-> w])
+                                   exp |-> IF w = "" THEN "ok" ELSE IF w = "Dev_BlockedFanout" THEN "hang" ELSE "crash",
+                                   why |-> w])
           /\ alive' = (w = "")
           /\ sess' = IF k.svc = "CloseSession" /\ v THEN [sess EXCEPT ![c] = FALSE] ELSE sess
           /\ sub' = IF k.svc = "DeleteSubscriptions" /\ k.arg = "own" /\ v /\ w = "" THEN [sub EXCEPT ![c] = FALSE] ELSE sub
@@ -111,7 +124,8 @@ Step(c, k, s) ==
 Init == /\ alive = TRUE /\ sess = [c \in Clients |-> TRUE] /\ sub = [c \in Clients |-> TRUE]
         /\ item = [c \in Clients |-> TRUE] /\ hist = <<>>
 
-Next == \E c \in Clients, k \in UseKinds, s \in SessClasses : Step(c, k, s)
+Next == \E c \in Clients, k \in UseKinds, s \in SessClasses :
+            (k.svc = "SlowSubscriber" => s = "own") /\ Step(c, k, s)
 Spec == Init /\ [][Next]_vars
 
 \* C29: after every request sequence the server is alive and answers (the canary)
